@@ -259,3 +259,10 @@ def groups(tier):
   gs.append(("update_sleep.frame", g_update_sleep_frame))
   gs.append(("rejects", g_rejects))
   return gs
+
+
+def native_replay(oid, model):
+  """counter-model -> command that drives the real API on a model of the same shape (scenarios/replay_native.py)"""
+  from .common import native_cmd
+
+  return native_cmd("reset", model, masked=("none" not in oid.split("#")[0]))
